@@ -132,6 +132,11 @@ def job(j):
     # ---- a data column that overrides a rule, also requested as a target next to its descendants: the call may refuse
     #      loudly, but if it answers, the descendants must have the values they have without that target and the returned
     #      column must be the supplied one
+    ag = _user_aggregation_runs(df, date, rnd, cols, tid, work, info)
+    if ag is not None:
+        out["bad"] = list(out["bad"]) + ag["bad"]
+        out["stats"]["judged"] += ag["stats"]["judged"]
+        out["tlc_states"] += ag["tlc_states"]
     ov = _override_runs(df, date, rnd, base, cols, tid, work, info)
     if ov is not None:
         out["bad"] = list(out["bad"]) + ov["bad"]
@@ -142,6 +147,38 @@ def job(j):
     info["tlc_states"] = out["tlc_states"]
     info["ncols"] = len(cols)
     return info
+
+
+def _user_aggregation_runs(df, date, rnd, cols, tid, work, info):
+    """A user aggregation specification whose source is an automatically derived time-unit column (of an input and of a
+    rule): the aggregate has the same value whatever else is requested, and requesting it alone does not raise."""
+    import pandas as pd
+
+    specs = {"verif_max_lohn_y_hh": {"aggr": "max", "source_col": "bruttolohn_y"}, "verif_sum_kg_y_hh": {"aggr": "sum", "source_col": "kindergeld_y"}}
+    if "kindergeld_m" not in cols:
+        specs.pop("verif_sum_kg_y_hh")
+    aggs = list(specs)
+    t = rnd.choice([c for c in gs.default_targets() if c in cols])
+    full = aggs + [specs[a]["source_col"] for a in aggs] + [t]
+    try:
+        b = gs.compute(df, date, targets=full, aggregate_by_group_specs=specs)
+    except Exception as e:  # noqa: BLE001
+        info["errors"].append({"run": 200, "targets": full, "opts": {"aggregate_by_group_specs": True}, "error": f"{type(e).__name__}: {str(e)[:160]}"})
+        return None
+    tr = runs.RunTrace(work, f"c04a_{tid}")
+    tid2 = tid + 2_000_000
+    tr.base(tid2, b, list(b.columns), [])
+    k = 200
+    for targets in ([aggs[0]], aggs, aggs + [t], [aggs[-1], t]):
+        k += 1
+        try:
+            res = gs.compute(df, date, targets=targets, aggregate_by_group_specs=specs)
+        except Exception as e:  # noqa: BLE001
+            info["errors"].append({"run": k, "targets": targets, "opts": {"aggregate_by_group_specs": True}, "error": f"{type(e).__name__}: {str(e)[:160]}"})
+            continue
+        tr.run(tid2, k, "targets", res, list(res.columns), requested=sorted(set(targets)))
+        info["runs"].append({"run": k, "rel": "targets", "targets": targets, "opts": {"aggregate_by_group_specs": True}})
+    return tr.judge()
 
 
 def _override_runs(df, date, rnd, base, cols, tid, work, info):
